@@ -126,7 +126,7 @@ class WrapperModel:
                 self._pending_else = None
                 self._walk_block(c, env, cond)
                 if self._pending_else is not None and self._pending_else[1] == cond:
-                    cond = cond + ((self._pending_else[0], False),)
+                    cond = cond + ((self._pending_else[0], len(self._pending_else) > 2),)
                 self._pending_else = None
         elif k == 'decl':
             for v in s['vars']:
@@ -160,6 +160,15 @@ class WrapperModel:
                 self._err(s, 'return of something other than the forwarded call result')
         elif k == 'if':
             c = strip(s['c'])
+            pos = True
+            for _ in range(4):
+                while isinstance(c, dict) and c.get('k') in ('cast', 'paren', 'load'):
+                    c = strip(c['e'])
+                if isinstance(c, dict) and c.get('k') == 'un' and c.get('op') == '!':
+                    pos = not pos
+                    c = strip(c['e'])
+                    continue
+                break
             if c.get('k') == 'ref' and c.get('rk') == 'param' and (c.get('t') or {}).get('k') == 'bool':
                 bname = c['name']
                 if self.penv is not None and bname in self.penv:
@@ -169,14 +178,14 @@ class WrapperModel:
                     bname = r_
                 self.branch_params.add(bname)
                 thn_returns = any(x.get('k') == 'return' for x in walk(s['then']))
-                self._walk_block(s['then'], env, cond + ((bname, True),))
+                self._walk_block(s['then'], env, cond + ((bname, pos),))
                 if s.get('else') is None:
                     if not thn_returns:
                         self._err(s, 'branch on %s without else arm' % bname)
                     # `if (flag) return f<true>(...); return f<false>(...);` : the fall-through is the else arm
-                    self._pending_else = (bname, cond)
+                    self._pending_else = (bname, cond) if pos else (bname, cond, True)
                 else:
-                    self._walk_block(s['else'], env, cond + ((bname, False),))
+                    self._walk_block(s['else'], env, cond + ((bname, not pos),))
             else:
                 self._err(s, 'control flow on something other than a bool parameter')
         elif k == 'null':
